@@ -132,6 +132,8 @@ mut("c18-revert-fix-p256-negation", "C18", "src/p256.rs",
     "            (*R, (!c1h).wrapping_add((c1l == 0) as u32), c1l.wrapping_neg())", "            (*R, !c1h.wrapping_add((c1l == 0) as u32), c1l.wrapping_neg())", "revert of fix 38f06f1 (c1 half)")
 mut("c18-revert-fix-modint-zero-split", "C18", "src/backend/w64/modint.rs",
     "        let u1_trunc_zero = (u1[0] | u1[1]) == 0 && self.iszero() == 0;", "        let u1_trunc_zero = false && (u1[0] | u1[1]) == 0 && self.iszero() == 0;", "revert of fix cf2e8ac")
+mut("c18-revert-fix-clmul-xor-bit", "C18", "src/backend/w64/gfb254_x86clmul.rs",
+    "        x[k >> 6] ^= ((val & 1) as u64) << (k & 63);", "        x[k >> 6] ^= ((val & 1) as u64) << (k & 64);", "revert of fix 1936e5a")
 # ---------------------------------------------------------------- C19
 mut("c19-revert-fix-lagrange-stuck", "C19", "src/backend/w64/lagrange.rs",
     "                    if stuck > 3 {\n                        return (v0.0, v1.0);\n                    }\n                } else {\n                    last_bl_sp = bl_sp;\n                    stuck = 0;\n                }\n            }\n            let mut s = bl_sp.wrapping_sub(bl_nv);",
